@@ -14,12 +14,16 @@ Runs the REAL sheXer (from $VERIF_REPO) and compares it with itself:
   (c) pair      two Shapers built from the SAME namespaces_dict / target_classes objects: each one's output equals the output
                 of a fresh control built from private copies, and the caller's objects are left unchanged.
   (d)           (a)-(c) repeated with examples_mode in {None, "all"} and detect_minimal_iri in {False, True}.
+  (b')          ShExC-only sequences with disable_or_statements=False x allow_redundant_or in {True, False} (SHACL rejects choice
+                statements) and sequences low/high/low threshold on shape maps with detect_minimal_iri=True, remove_empty_shapes=False
+                whose label is empty at threshold 1 and whose instance IRIs share a prefix ending inside a token.
 
 Finding keys
     C18:file-vs-string:<ShEx|Shacl|profile>          file text differs from the returned string (fresh Shapers)
     C18:file-vs-string:ShEx:long-output              long text (either sink) is not header + the shape blocks of the slices
     C18:repeat-call:examples-duplicated              only difference: `// rdfs:comment` example lines printed more than once
     C18:repeat-call:<shexc-text|shacl-graph|profile> a call differs from the fresh control for a reason not explained below
+    C18:repeat-call:minimal-iri                      only the [<stem>~] / sh:pattern of a shape differs from the fresh control
     C18:repeat-call:crash:<function>                 a call raises on the used Shaper although it returns on a fresh one
     C18:stale-threshold                              ... and agrees once the earlier calls use this call's threshold
     C18:stale-format                                 ... and agrees once the earlier calls use this call's output format
@@ -394,6 +398,33 @@ def _same_but_examples(fmt, a, b):
     return same(fmt, a, b) or (fmt == SHEX and collapse_examples(a) == collapse_examples(b))
 
 
+_RE_STEM = None
+
+
+def _same_but_min_iri(fmt, a, b):
+    """Do the two results differ only in the minimal IRI of shapes ([<stem>~] in ShExC, sh:pattern in SHACL)?"""
+    import re
+    global _RE_STEM
+    if _RE_STEM is None:
+        _RE_STEM = re.compile(r"  \[<[^>]*>~\]  AND")
+    if fmt == SHEX:
+        return a != b and _RE_STEM.sub("", a) == _RE_STEM.sub("", b)
+    if fmt != SHACL:
+        return False
+    import rdflib
+    import rdflib.compare
+    try:
+        ga, gb = rdflib.Graph().parse(data=a, format="turtle"), rdflib.Graph().parse(data=b, format="turtle")
+    except Exception:
+        return False
+    pattern = rdflib.URIRef("http://www.w3.org/ns/shacl#pattern")
+    if not (list(ga.triples((None, pattern, None))) or list(gb.triples((None, pattern, None)))):
+        return False
+    for g in (ga, gb):
+        g.remove((None, pattern, None))
+    return rdflib.compare.isomorphic(ga, gb)
+
+
 def _classify(R, nt, cfg, seq, i, got, want, tmp):
     """Key and explanation for: call i of seq returned `got`, the fresh control returned `want`."""
     call = seq[i]
@@ -404,6 +435,9 @@ def _classify(R, nt, cfg, seq, i, got, want, tmp):
     if fmt == SHEX and got != want and collapse_examples(got) == collapse_examples(want):
         return ("C18:repeat-call:examples-duplicated",
                 "the `// rdfs:comment` example annotations are printed more than once; " + detail)
+    if call["op"] == "shex" and _same_but_min_iri(fmt, got, want):
+        return ("C18:repeat-call:minimal-iri",
+                "only the minimal IRI of a shape ([<stem>~] / sh:pattern) differs: the stem printed depends on the earlier calls; " + detail)
     if call["op"] == "shex":
         earlier = [c for c in seq[:i] if c["op"] == "shex"]
         if any(c["t"] != call["t"] for c in earlier):
@@ -454,6 +488,10 @@ def check_seq(case, R):
                     R.nontrivial.add(U.digest(nt, cfg, json.dumps(seq[:i + 1], sort_keys=True)))
                 if call["op"] == "shex" and fmt == SHEX:
                     sens.add(want)
+                    if i == 0 and " OR " in want:
+                        R.stats["first_calls_printing_OR"] += 1
+                    if i == 0 and "~]  AND" in want and "remove_empty_shapes" in cfg:
+                        R.stats["first_calls_printing_stem_of_kept_empty_shape"] += 1
                 if same(fmt, got, want):
                     continue
                 key, why = _classify(R, nt, cfg, seq, i, got, want, tmp)
@@ -592,6 +630,44 @@ def gen_cases(tier, seed):
             for first in ALPHABET:                      # all 14^3 sequences of length 3 (their prefixes are the shorter ones)
                 seqs = [[first, b, c] for b in ALPHABET for c in ALPHABET]
                 cases.append({"kind": "seq", "origin": origin, "graph": {"nt": nt}, "cfg": cfg, "seqs": seqs})
+    # ---- (b') OR statements: the same ShExC call repeated (SHACL rejects choice statements: a known C04 matter) -------------------
+    shex_ops = [c for c in ALPHABET if c["op"] == "profile" or c["fmt"] == SHEX]
+
+    def sx(sink, t):
+        return {"op": "shex", "fmt": SHEX, "sink": sink, "t": t}
+    or_fixed = [[sx("string", 0), sx("string", 0)], [sx("string", 0), sx("file", 0)], [sx("string", 0), sx("string", 0), sx("string", 0)],
+                [sx("file", 0.5), sx("string", 0.5)], [sx("string", 0.5), {"op": "profile", "sink": "string"}, sx("file", 0.5)],
+                [sx("string", 0), sx("string", 1), sx("string", 0)]]
+    a1, b1, c1, c2 = [M.IRI(G.EX + n) for n in ("a1", "b1", "c1", "c2")]
+    crafted = [M.Triple(a1, M.RDF_TYPE, M.IRI(G.CLASS_A)), M.Triple(a1, M.RDF_TYPE, M.IRI(G.CLASS_B)),
+               M.Triple(b1, M.RDF_TYPE, M.IRI(G.CLASS_B)), M.Triple(b1, M.RDF_TYPE, M.IRI(G.CLASS_A)),
+               M.Triple(c1, M.RDF_TYPE, M.IRI(G.EX + "C")), M.Triple(c2, M.RDF_TYPE, M.IRI(G.EX + "C")),
+               M.Triple(c1, G.PROP_P, a1), M.Triple(c2, G.PROP_P, b1), M.Triple(a1, G.PROP_Q, M.Lit("x")), M.Triple(b1, G.PROP_Q, c1)]
+    for gi, (origin, T) in enumerate([("crafted-or", crafted)] + fam):
+        for red in (True, False):
+            cfg = dict(({"all_classes_mode": True}, {"all_classes_mode": True, "inverse_paths": True})[gi % 2],
+                       disable_or_statements=False, allow_redundant_or=red)
+            seqs = or_fixed + [[rng.choice(shex_ops) for _ in range(3)] for _ in range(max(4, sz["sample"] // 4))]
+            cases.append({"kind": "seq", "origin": origin, "graph": {"nt": U.to_nt(T)}, "cfg": cfg, "seqs": seqs})
+    # ---- (b'') minimal IRI of a shape-map shape that is empty at threshold 1 and kept (remove_empty_shapes=False) --------------
+    for gi, (stem, n1, n2) in enumerate((("http://ex.org/people/", "alice", "albert"), ("http://ex.org/item-", "10", "11"),
+                                         ("http://other.org/ns#", "node_a", "node_b"), ("http://ex.org/people/", "bob", "bo"))):
+        x, y, z = M.IRI(stem + n1), M.IRI(stem + n2), M.IRI(G.EX + "s1")
+        T = [M.Triple(x, G.EX + "name", M.Lit("a")), M.Triple(y, G.EX + "age", M.Lit("3", dt=M.XSD_INTEGER)),
+             M.Triple(x, M.RDF_TYPE, M.IRI(G.CLASS_A)), M.Triple(z, M.RDF_TYPE, M.IRI(G.CLASS_A)), M.Triple(z, G.PROP_P, M.Lit("x")),
+             M.Triple(z, G.PROP_Q, y)]
+        sm = "<%s>@ex:Pair\n<%s>@ex:Pair\n{FOCUS a ex:A}@ex:L1" % (x.iri, y.iri)
+        for inv in (False, True):
+            cfg = {"shape_map_raw": sm, "detect_minimal_iri": True, "remove_empty_shapes": False}
+            if inv:
+                cfg["inverse_paths"] = True
+            seqs = []
+            for fmt in (SHEX, SHACL):
+                for sink in ("string", "file"):
+                    lo, mid, hi = [{"op": "shex", "fmt": fmt, "sink": sink, "t": t} for t in THRESHOLDS]
+                    seqs += [[hi], [lo, hi], [hi, lo], [lo, hi, lo], [hi, hi], [mid, hi], [hi, mid, hi]]
+            seqs += [[rng.choice(ALPHABET) for _ in range(3)] for _ in range(max(4, sz["sample"] // 4))]
+            cases.append({"kind": "seq", "origin": "min-iri-shape-map", "graph": {"nt": U.to_nt(T)}, "cfg": cfg, "seqs": seqs})
     # ---- (a) sinks ------------------------------------------------------------------------------
     calls = [{"op": "shex", "fmt": SHEX, "sink": "string", "t": 0}, {"op": "shex", "fmt": SHACL, "sink": "string", "t": 0},
              {"op": "shex", "fmt": SHEX, "sink": "string", "t": 0.5}, {"op": "profile", "sink": "string"}]
@@ -738,7 +814,7 @@ def run(pid=PID, tier="quick", seed=0):
                          sz["graphs"], stats["threshold_sensitive_cases"], n_kind["sink"] - len(_long_cases(tier)),
                          len(_long_cases(tier)), max_lines, n_kind["pair"], seed, U.TIMEOUT),
             "samples": samples, "skipped_crashes": dict(crashes), "findings": out_findings, "undecided": undecided,
-            "distinct_finding_keys": len(by_key), "longest_shexc_lines": max_lines, "wall_s": round(time.time() - t0, 2)}
+            "distinct_finding_keys": len(by_key), "longest_shexc_lines": max_lines, "stats": dict(stats), "wall_s": round(time.time() - t0, 2)}
 
 
 def replay(doc):
@@ -837,7 +913,34 @@ def _mutants():
         shaper_mod.Shaper.profile_graph = profile_graph
         return lambda: setattr(shaper_mod.Shaper, "profile_graph", old)
 
+    def min_iri_only_for_non_empty_shapes():
+        import shexer.core.shexing.strategy.abstract_shexing_strategy as ass
+        old = ass.AbstractShexingStrategy.yield_base_shapes
+
+        def yield_base_shapes(self, acceptance_threshold):
+            for a_shape in self._yield_base_shapes_direction_aware(acceptance_threshold=acceptance_threshold):
+                if a_shape.n_statements > 0:            # an empty shape keeps the raw longest common prefix
+                    self._strategy_min_iri.annotate_shape_iri(a_shape)
+                yield a_shape
+        ass.AbstractShexingStrategy.yield_base_shapes = yield_base_shapes
+        return lambda: setattr(ass.AbstractShexingStrategy, "yield_base_shapes", old)
+
+    def choice_serializer_rewrites_types():
+        import shexer.io.shex.formater.statement_serializers.fixed_prop_choice_statement_serializer as fp
+        old = fp.FixedPropChoiceStatementSerializer.serialize_statement_with_indent_level
+
+        def serialize_statement_with_indent_level(self, a_statement, is_last_statement_of_shape, namespaces_dict):
+            out = old(self, a_statement, is_last_statement_of_shape, namespaces_dict)
+            a_statement._st_types[:] = ["<" + a_type + ">" for a_type in a_statement._st_types]     # in place: next call differs
+            return out
+        fp.FixedPropChoiceStatementSerializer.serialize_statement_with_indent_level = serialize_statement_with_indent_level
+        return lambda: setattr(fp.FixedPropChoiceStatementSerializer, "serialize_statement_with_indent_level", old)
+
     return [
+        ("yield_base_shapes cuts the minimal IRI only for shapes with statements (fresh call at t=1 prints the raw prefix)", "C18:repeat-call:minimal-iri",
+         min_iri_only_for_non_empty_shapes),
+        ("FixedPropChoiceStatementSerializer rewrites the alternatives of an OR statement in place", "C18:repeat-call:shexc-text",
+         choice_serializer_rewrites_types),
         ("ShexSerializer._write_line does not empty the buffer after a flush", "C18:file-vs-string:ShEx", buffer_not_reset),
         ("ShexSerializer file sink re-opens the file with 'w' at every flush", "C18:file-vs-string:ShEx", file_sink_drops_flushes),
         ("Shaper.shex_graph reuses the cached shape list whatever the threshold", "C18:stale-threshold", cached_shapes_any_threshold),
